@@ -100,7 +100,9 @@ void h_c04_read_dictionary_page(void) {
       if (cqv_k < (size_t)r->dictionary_count) {
         size_t o = r->dictionary_offsets[cqv_k];
         __CPROVER_assert(o + 4 <= page_size && o + 4 + (size_t)PG_LE32(page + o) <= page_size, "C04: every offset-table entry and the value it announces lie inside the page");
+#ifndef PG_FLBA
         if (r->dictionary_count > 1) CQV_CANARY("byte-array dictionary with several entries accepted");
+#endif
       }
     }
     free(r->dictionary_data); free(r->dictionary_offsets);
@@ -108,3 +110,68 @@ void h_c04_read_dictionary_page(void) {
   free(r); free(page); free(h); free(err);
   CQV_CANARY("read_dictionary_page returns");
 }
+
+/* ---- carquet_read_data_page_v1, safety half, BOUNDED: max_values <= PG_MAXV (all 7 loops unwound completely;
+ * the facts "every decoded index < dictionary_count" and "every offset-table entry + 4 <= dictionary_size" are
+ * universally quantified over a symbolic range, which the SAT back end cannot carry through loop contracts).
+ * Level decoders, plain decoder, index decoder and gathers are the assumed contracts of stubs/pages_stubs.c. */
+#ifdef PG_DECODE_STUBS
+void h_c04_read_data_page_v1(void) {
+  carquet_column_reader_t *r = pg_block(sizeof(*r));
+  carquet_column_reader_t r0; *r = r0;
+  /* case split: one job per physical type value (assigned, so that symbolic execution prunes the other branches) */
+#ifdef PG_TYPE
+  r->type = (carquet_physical_type_t)PG_TYPE;
+#endif
+#ifdef PG_FLBA
+  r->type_length = PG_FLBA;
+#endif
+  int64_t max_values = nondet_i64();
+  __CPROVER_assume(max_values >= 0 && max_values <= PG_MAXV);
+  size_t vs = PG_VALUE_SIZE(r->type, r->type_length);
+  void *values = pg_block(vs * (size_t)max_values);
+  int16_t *def = nondet_bool() ? pg_block((size_t)max_values << 1) : NULL;
+  int16_t *rep = nondet_bool() ? pg_block((size_t)max_values << 1) : NULL;
+  size_t page_size = nondet_size_t();
+  __CPROVER_assume(page_size <= ((size_t)1 << 31));
+  uint8_t *page = pg_block(page_size);
+  parquet_data_page_header_t *h = pg_block(sizeof(*h));
+  parquet_data_page_header_t h0; *h = h0;
+  __CPROVER_assume(h->num_values >= 0);          /* both call sites reject a negative count first (c6e3bde); asserted there */
+  /* dictionary state as carquet_read_dictionary_page leaves it */
+  r->dictionary_data = NULL; r->dictionary_offsets = NULL;
+  if (r->has_dictionary) {
+    __CPROVER_assume(r->dictionary_count >= 0);
+    if (r->type == CARQUET_PHYSICAL_BYTE_ARRAY) {
+      __CPROVER_assume(r->dictionary_count <= 3 && r->dictionary_size <= ((size_t)1 << 31));
+      r->dictionary_data = pg_block(r->dictionary_size);
+      r->dictionary_offsets = pg_block(12);
+      if (0 < r->dictionary_count) __CPROVER_assume((size_t)r->dictionary_offsets[0] + 4 <= r->dictionary_size);
+      if (1 < r->dictionary_count) __CPROVER_assume((size_t)r->dictionary_offsets[1] + 4 <= r->dictionary_size);
+      if (2 < r->dictionary_count) __CPROVER_assume((size_t)r->dictionary_offsets[2] + 4 <= r->dictionary_size);
+    } else {
+      r->dictionary_size = PG_DICT_VS(r->type, r->type_length) * (size_t)r->dictionary_count;
+      r->dictionary_data = pg_block(r->dictionary_size);
+    }
+  }
+  __CPROVER_assume(r->indices_capacity <= ((size_t)1 << 31));
+  r->indices_buffer = r->indices_capacity ? pg_block(r->indices_capacity << 2) : NULL;
+  carquet_error_t *err = NULL;
+  if (nondet_bool()) { err = pg_block(sizeof(*err)); err->code = CARQUET_OK; }
+  int64_t got = -1;
+  carquet_status_t st = carquet_read_data_page_v1(r, page, page_size, h, values, max_values, def, rep, &got, err);
+  __CPROVER_assert(st != CARQUET_ERROR_CRC_MISMATCH, "never a CRC error");
+  if (st == CARQUET_OK) {
+    __CPROVER_assert(got >= 0 && got <= max_values, "C04: values_read within [0, max_values]");
+    CQV_CANARY("read_data_page_v1 can succeed");
+    if (got == PG_MAXV) CQV_CANARY("read_data_page_v1 can fill the buffer");
+  } else {
+    __CPROVER_assert(err == NULL || err->code != CARQUET_OK, "C04: failure leaves a non-OK code");
+    CQV_CANARY("read_data_page_v1 can fail");
+  }
+  __CPROVER_assert(r->indices_buffer == NULL || __CPROVER_r_ok(r->indices_buffer, r->indices_capacity << 2), "indices buffer and capacity stay consistent");
+  free(r->indices_buffer); free(r->dictionary_data); free(r->dictionary_offsets);
+  free(r); free(values); free(def); free(rep); free(page); free(h); free(err);
+  CQV_CANARY("read_data_page_v1 returns");
+}
+#endif
